@@ -24,17 +24,21 @@ QUICK = {
     "B-env": consts(MaxCalls=2, MaxEnv=1, MaxTicks=0),
     # appearance / disappearance / TTL expiry / negative entries, one version
     "C-expiry": consts(MaxVer=1),
+    # one source, one provider, long histories: disappear / reappear / expire cycles (the removal timer must restart)
+    "D-reappear": consts(SrcSeq="<- Src1", ProvSeq="<- Prov1", MaxVer=1, MaxCalls=5, MaxEnv=3, MaxTicks=1, WithWaiter=False),
 }
 THOROUGH = {
     "T1-2x2": consts(MaxCalls=4, MaxEnv=1, MaxTicks=1),
     "T2-ttl3": consts(MaxVer=1, TTL=3, MaxTicks=2, MaxCalls=4, MaxEnv=1),
     "T3-3src": consts(SrcSeq="<- Src3", MaxVer=2, MaxCalls=2, MaxEnv=1, MaxTicks=0, WithWaiter=False),
     "T4-3prov": consts(ProvSeq="<- Prov3", MaxVer=1, MaxCalls=3, MaxEnv=1, MaxTicks=1, WithWaiter=False),
+    "T5-reappear": consts(SrcSeq="<- Src1", ProvSeq="<- Prov1", MaxVer=2, MaxCalls=7, MaxEnv=5, MaxTicks=3, WithWaiter=False),
 }
 
 
 # long random histories (TLC -simulate): three providers so that the merge threshold is crossed both ways
 SIM = consts(ProvSeq="<- Prov3", MaxCalls=14, MaxEnv=10, MaxTicks=2)
+SIM1 = consts(SrcSeq="<- Src1", ProvSeq="<- Prov1", MaxVer=1, MaxCalls=10, MaxEnv=8, MaxTicks=2, WithWaiter=False)
 SIM_NOTICK = consts(ProvSeq="<- Prov3", MaxCalls=14, MaxEnv=10, MaxTicks=0)
 
 
@@ -46,7 +50,7 @@ def simulate(c, seed, num, tag):
 
 def srcs_provs(c):
     s = {"<- Src1": "s1", "<- Src2": "s1,s2", "<- Src3": "s1,s2,s3"}[c["SrcSeq"]]
-    p = {"<- Prov2": "p,q", "<- Prov3": "p,q,r"}[c["ProvSeq"]]
+    p = {"<- Prov1": "p", "<- Prov2": "p,q", "<- Prov3": "p,q,r"}[c["ProvSeq"]]
     return s, p
 
 
@@ -76,6 +80,12 @@ def run(tier, seed, replay=None):
     cfgs = dict(cfgs)
     cfgs["simulate"] = SIM
     res["simulate"] = sim
+    # many random histories of one provider at one source: the same cache state is reached along different paths
+    # (disappear / reappear with the same record / expire), which the one-behaviour-per-state export does not replay
+    sim1 = simulate(SIM1, seed + 7, 400 if tier == "quick" else 20000, "c06sim1")
+    ck.add_tlc("ProviderCache/simulate-1x1", sim1, "random behaviours, 1 source x 1 provider, 10 calls, 8 environment changes, 2 ticks")
+    cfgs["simulate-1x1"] = SIM1
+    res["simulate-1x1"] = sim1
     # 3. replay every exported behaviour on the real cache
     for name, c in cfgs.items():
         r = res[name]
@@ -83,13 +93,20 @@ def run(tier, seed, replay=None):
             continue
         f = os.path.join(r.workdir, "c06_behaviours.ndjson")
         s, p = srcs_provs(c)
-        rep = vlib.run_harness(binary, ["c06", "-behaviours", f, "-srcs", s, "-provs", p, "-ttl", str(c["TTL"]),
-                                        "-ticklen", str(c["TickLen"]), "-unit-ms", "10", "-procs", str(2 * vlib.NCPU)], timeout=7000)
-        if rep.get("extra", {}).get("read_error") or rep.get("extra", {}).get("shards_failed"):
-            raise vlib.Infra("replay of %s failed: %s" % (name, rep.get("extra")))
-        vlib.log("[replay] %s: %d behaviours, %d inconclusive, %d divergences, extra=%s" % (
-            name, rep["evaluations"], rep["inconclusive"], len(rep["divergences"]), rep.get("extra")))
-        if rep["evaluations"] and rep["inconclusive"] > 0.2 * rep["evaluations"]:
+        def replay(unit_ms, procs):
+            rep = vlib.run_harness(binary, ["c06", "-behaviours", f, "-srcs", s, "-provs", p, "-ttl", str(c["TTL"]),
+                                            "-ticklen", str(c["TickLen"]), "-unit-ms", str(unit_ms), "-procs", str(procs)], timeout=7000)
+            if rep.get("extra", {}).get("read_error") or rep.get("extra", {}).get("shards_failed"):
+                raise vlib.Infra("replay of %s failed: %s" % (name, rep.get("extra")))
+            vlib.log("[replay] %s: %d behaviours, %d inconclusive, %d divergences, extra=%s" % (
+                name, rep["evaluations"], rep["inconclusive"], len(rep["divergences"]), rep.get("extra")))
+            return rep
+        rep = replay(10, 2 * vlib.NCPU)
+        if rep["evaluations"] and rep["inconclusive"] > 0.05 * rep["evaluations"] and not rep["divergences"]:
+            # the machine is busy: real-time TTL steps were disturbed; repeat with a coarser clock and fewer processes
+            vlib.log("[replay] %s: timing disturbed, repeating with a 40 ms clock unit" % name)
+            rep = replay(40, max(4, vlib.NCPU // 2))
+        if rep["evaluations"] and rep["inconclusive"] > 0.3 * rep["evaluations"]:
             raise vlib.Infra("too many behaviours with disturbed timing (%d of %d)" % (rep["inconclusive"], rep["evaluations"]))
         ck.add_report(rep)
         ck.cov["inconclusive_" + name] = rep["inconclusive"]
